@@ -12,444 +12,528 @@ Definition show_fres (r : fres) : string :=
   end.
 Definition check (rs : list rune) : string := digest (show_fres (format_res rs)).
 Definition full (rs : list rune) : string := show_fres (format_res rs).
-Eval vm_compute in ("<<<M1443>>>" ++ check (runes_of_ascii "packet A {
-    @rightPad('0')
-    repeat i8i8 {
-        zchar[007] packetx,
-        metadata `" ++ [28040; 24687; 31867; 22411]%N ++ runes_of_ascii "`,
-        repeat float64 T,
-    },
-    @tag(0)
-    Z9_ {
-        int @lengthOf(tag) `line1
-                line2`,
-        repeat i8i8 {
-            zchar[00] stringy,
-            repeat f32a {
-                match i64_ as string_ {
-                    [255, 0123456789, ""{,}""] : x_y_z,
-                    """ ++ [233]%N ++ runes_of_ascii "t" ++ [233]%N ++ runes_of_ascii """ : A,
-                    ""`tick`"" : len,
-                },
-            },
-            //
-            repeat u8x {
-                u16 Z9_ @calculatedFrom(""" ++ [128512]%N ++ runes_of_ascii """) `line1
-                                line2`,
-                f32 matchKey,
-            },// " ++ [27880; 37322]%N ++ runes_of_ascii "
-            float64 u8x `
-                        `,
-        },//
-    },// `tick` ""quote"" 'q'
-    a1 {
-        repeat zchar[007] Foo `two words`,
-        f32a @calculatedFrom(""" ++ [28040; 24687]%N ++ runes_of_ascii """),
-        int64 i64_ @calculatedFrom(""`tick`""),
-    },
-    @lengthOf(Header)
-    f32 stringy @calculatedFrom(""x y"") `say ""hi""`,
-    Foo,
-    float64 BodyLength @calculatedFrom(""packet""),
-    uint32 int,
+Eval vm_compute in ("<<<M1778>>>" ++ check (runes_of_ascii "MetaData asx {
+    char[] MetaDataX,
+    lengthOf Z9_,
+    crc Foo,
+    char[4294967296] BodyLength,
+    Foo leftPad `doc`,
+    tag u128,
 }
 
-packet string_ {
-    @tag(4294967296)
-    repeat u `two words`,
-    repeat zchar[0] BodyLength,
-    @tag(255)
-    /// triple
-    int `line1
-        line2`,
-    uint8x `it's`,
-    @tag(65535)
-    int8 metadata `" ++ [233]%N ++ runes_of_ascii "`,/// triple
-    match options1 as float {
-        3 : f32a,
-        """ ++ [28040; 24687]%N ++ runes_of_ascii """ : charz,
-    },
-    match uint8x as string_ {
-        ""CRC32"" : x,
-    },
-    uint8 packetx `crlf
-        line`,
-    @leftPad()
-    zchar[0] Foo `say ""hi""`,
-}")).
-Eval vm_compute in ("<<<M1338>>>" ++ check (runes_of_ascii "// top
-options
-    // c0
-{ ArrayPrefixLenType = // c3
-u64 // c4a
-  // c4b
-; FixedStringPadFromLeft // c6a
-  // c6b
-= true ; // c9
-FixedStringPadChar =
-    // c11
-'0' ; // c13
-} // c14
-packet // c15a
-  // c15b
-Quote // c16
-{ // c17a
-  // c17b
-}
-    // c18
-packet
-    // c19
-Ack // c20a
-  // c20b
-{
-    // c21
-repeat InNote66 { u8 pad0
-    // c26
-, // c27a
-  // c27b
-}
-    // c28
-, // c29
-}
-    // c30
-packet // c31a
-  // c31b
-Reject { // c33
-} // c34
-root // c35
-packet // c36
-Order { // c38
-Quote
-    // c39
-,
-    // c40
-repeat
-    // c41
-Reject
-    // c42
-,
-    // c43
-string venue , // c46a
-  // c46b
-string // c47a
-  // c47b
-seqNo
-    // c48
-,
-    // c49
-uint32 Ref // c51a
-  // c51b
-, // c52a
-  // c52b
-u16 lastPx
-    // c54
-, // c55
-u32
-    // c56
-clOrdID // c57
-@lengthOf( // c58
-Body ) ,
-    // c61
-match // c62a
-  // c62b
-lastPx as Body // c65
-{ // c66a
-  // c66b
-190 : Reject ,
-    // c70
-186 // c71
-: Quote // c73a
-  // c73b
-,
-    // c74
-22 // c75
-:
-    // c76
-Ack ,
-    // c78
-} // c79a
-  // c79b
-, // c80
-u16 // c81a
-  // c81b
-Flags // c82a
-  // c82b
-@calculatedFrom( ""CRC32"" ) ,
-    // c86
-} // c87a
-  // c87b
-")).
-Eval vm_compute in ("<<<M1841>>>" ++ check (runes_of_ascii "options {
-    FixedStringPadFromLeft = true;
-    FixedStringPadChar = '0';
-}
-
-packet Leg {
-    InPrice0 {
-        repeat string clOrdID,
-        int16 msgKind,
-        zchar[5] Px,
-    },
-    i16 f1,
-    repeat f64 Side2,
-    string Acct,
-}
-
-packet Cancel {
-    zchar[4] clOrdID,
-    string seqNo,
-    Leg,
-    @leftPad('0')
-    char[11] OrderId,
-}
-
-packet Quote {
-    repeat char[4] sym,
-    f64 OrderId,
-    repeat Leg,
-    repeat i64 f1,
-    int16 Note,
-    zchar[3] count,
-}
-
-root packet Ack {
-    @leftPad(' ')
-    char[10] sym,
-    InPx60 {
-        Cancel,
-        repeat char[1] f1,
-        string Tail,
-        repeat InNote55 {
-            int8 count,
-            f64 f1,
-            repeat Cancel,
-        },
-        char[] tag7,
-        repeat string msgKind,
-    },
-    u8 lastPx,
-    match lastPx as Body {
-        152 : Quote,
-        173 : Cancel,
-        4 : Leg,
-    },
-    u16 Ref @calculatedFrom(""CR\
-    C32""),
-}")).
-Eval vm_compute in ("<<<M221>>>" ++ check (runes_of_ascii "packet u128
-{ @rightPad (
-' ' )
-i64_ { Logon ,char[ 4294967296
-    // @lengthOf(
-    ] MetaDataX@calculatedFrom( """ ++ [28040; 24687]%N ++ runes_of_ascii """ ) , } // " ++ [27880; 37322]%N ++ runes_of_ascii "
-,	rootA{ zchar[
-    // " ++ [128512]%N ++ runes_of_ascii " emoji
-    1 // a // b
-]rootA ,
-asx { rootA @calculatedFrom( ""abc""  ), repeat uint16 x_y_z
-,
-    // packet A { u8 x, }
-    zchar[
-42
-    ] stringy ,body , }, }, @leftPad
-( '\x00' ) char[ 3]Z9_ @lengthOf(  roots )
+root packet stringy {
     // trailing space 
-    `" ++ [233]%N ++ runes_of_ascii "`	, @lengthOf( charz	) @leftPad ( '0')@calculatedFrom(  ""a\""b"" )
-    zchar[//	t
-7 ]
-    // @lengthOf(
-    a1 @calculatedFrom( ""\" ++ [233]%N ++ runes_of_ascii """
-) //
-`// not a comment` ,
-@lengthOf( lengthOf ) repeat
-i16
-chars
-,int
-{
-    //	t
-    zchar[
-    1 ] calculatedFrom`line1
-line2`,Packet `" ++ [28040; 24687; 31867; 22411]%N ++ runes_of_ascii "` , } ,// " ++ [128512]%N ++ runes_of_ascii " emoji
-@rightPad ( '\x00'  )
-    zchar[255 // `tick` ""quote"" 'q'
-]
-    repeatCount @calculatedFrom(""\" ++ [233]%N ++ runes_of_ascii """ ) , repeat
-    char[] Pad
-`a\` ,  @lengthOf( pack )	i8 int , }")).
-Eval vm_compute in ("<<<M1607>>>" ++ check (runes_of_ascii "packet leftPad {
-    //
-    i8 stringy @calculatedFrom(""" ++ [128512]%N ++ runes_of_ascii """),
-    int @calculatedFrom(""a	b"") `it's`,
+    match Header as repeatCount {
+        [""{,}""] : Header,
+        255 : repeatCount,
+        00 : pack,
+        1 : trueish,
+        7 : A,
+    },
+    T {
+        Z9_ `
+        `,
+    },
+    int16 o @calculatedFrom(""it's"") `line1
+    line2`,
+    match zchar as As {
+        ""CRC32"" : a1,
+        42 : Header,
+        [10] : zchar,
+    },
+    @tag(42)
+    repeat i64_ {
+        // c
+        char[00] _x `{ , }`,
+    },
+    repeat char[] uint8x `crlf
+    line`,
+    @leftPad('\x00')
+    @tag(7)
+    int32 repeatCount @calculatedFrom(""x y"") `// not a comment`,
+    u32 zchar `
+    `,
+    repeat stringy {
+        i8i8 lengthOf,
+    },// packet A { u8 x, }
+    @calculatedFrom(""abc"")
+    @lengthOf(tag)
+    @lengthOf(rootA)
+    char[3] rootA `" ++ [233]%N ++ runes_of_ascii "`,// c
+}
+
+MetaData crc {
+    float32 asx `" ++ [233]%N ++ runes_of_ascii "`,
+    string i64_,
+}
+
+root packet Packet {
+    charz @lengthOf(zchar),
+    f32 f32a `{ , }`,
+    i64 matchKey @lengthOf(leftPad),
+    string trueish,
+    @leftPad('0')
+    // trailing space 
+    tag @lengthOf(string_) `doc`,
+    match stringy as calculatedFrom {
+        [0123456789] : repeatCount,
+    },// trailing space 
+    char[3] Header,
+    int64 MetaDataX,
     @leftPad()
-    @tag(0123456789)
-    int32 u8x,
-    @lengthOf(A)
-    float64 u128 @calculatedFrom(""a\\""),//x
+    len {
+        packetx @lengthOf(chars) ``,
+    },
+    @rightPad('0')
+    x_y_z,
 }
 
 options {
-    //x
-    Pad = 0
-    u = ' '
-}
-
-MetaData a1 {
-    char[] metadata `// not a comment`,
-}
-
-packet Foo {
-    @tag(42)
-    repeat BodyLength,
-    int8 metadata `{ , }`,
-    @leftPad()
-    @calculatedFrom(""`tick`"")
-    @calculatedFrom(""a	b"")
-    u32 stringy,
-    @lengthOf(roots)
-    zchar[0] msg_type @lengthOf(i64_) `tab	here`,
-    i8 Header `{ , }`,
-    char[7] trueish @lengthOf(packetx),
-    u64 charz `
-    `,
-    zchar[65535] repeatCount `it's`,
-    match calculatedFrom as calculatedFrom {
-        ""a	b"" : roots,
-        42 : MetaDataX,
-    },
-}")).
-Eval vm_compute in ("<<<M369>>>" ++ check (runes_of_ascii "root
-packet leftPad { @calculatedFrom( """ ++ [128512]%N ++ runes_of_ascii """) int64 len
-`{ , }` , } packet
-    u128
-    { zchar[ 65535 ] chars @calculatedFrom( ""\" ++ [233]%N ++ runes_of_ascii """
-    ), @lengthOf(  int
-// packet A { u8 x, }
-// @lengthOf(
-) i64_ , crc { match	Z9_ as Logon
-    {
-10 : int ,
-[ 0 ]
-: u8x ,
+    rootA = '0';
+    Foo = char;
+    A = zchar[0123456789];
+    packetx = """ ++ [233]%N ++ runes_of_ascii "t" ++ [233]%N ++ runes_of_ascii """
+    float = true
+}//x")).
+Eval vm_compute in ("<<<M1787>>>" ++ check (runes_of_ascii "
 // trailing space 
-//x
-42 :
-    trueish , [ ""\" ++ [233]%N ++ runes_of_ascii """ , 4294967296
-    ]
-:Z9_
-    ""\n""	: u128 ,	} ,
-    repeat string_ uint8x, i8i8 , match u as body
-{ 4294967296:
+    packet 
+charz
+
+{	@calculatedFrom(  ""1""
+
+)match	x
+as
+    tag
+    { [
+    7 ,// @lengthOf(
+0, 65535
+	, 
+	    // `tick` ""quote"" 'q'
+  ""it's""	/// triple
+
+,
+0
+
+    ,
+
+    ""x y""
+
+,255 ]	: tag,[
+
+""1""  // a // b
+	, 	 //	t
+
+	3
+, 007	, // " ++ [27880; 37322]%N ++ runes_of_ascii "
+	255 
+, ""x y""
+	    // @lengthOf(
+] 
+:
+
+pack
+	,
+
+    [
+    """ ++ [233]%N ++ runes_of_ascii "t" ++ [233]%N ++ runes_of_ascii """
+    ,7 ,
+    10  ,	3
+,
+
+    0,""a\""b""	] : 
+    // packet A { u8 x, }
+
+  leftPad ,
+[  65535
 // " ++ [27880; 37322]%N ++ runes_of_ascii "
-/// triple
-Z9_, 10
-:	Z9_,
-[ """ ++ [128512]%N ++ runes_of_ascii """
-    ,
-    ""x y"" ]
-: pack ,
-    } , }
-, @tag( // " ++ [128512]%N ++ runes_of_ascii " emoji
-0123456789 )
-    @lengthOf( calculatedFrom) @leftPad ( '\x00' // c
-) zchar[ 3 ]
-    T ,
-match A  as
-    leftPad{ [ """ ++ [28040; 24687]%N ++ runes_of_ascii """ ] :i64_""// no comment"" :
-    string_
-    ,
-} , } // trailing space ")).
-Eval vm_compute in ("<<<M1414>>>" ++ check (runes_of_ascii "packet stringy {
-    repeat T {
-        u64 lengthOf `tab	here`,
-        repeat _x {
-            match calculatedFrom as Header {
-                [""" ++ [233]%N ++ runes_of_ascii "t" ++ [233]%N ++ runes_of_ascii """] : _x,
-                // @lengthOf(
-                [""packet""] : MetaDataX,
-                255 : u128,
-                42 : A,
-                ""// no comment"" : body,
-            },
-            repeat crc Foo,
-            charz,
-        },
-        zchar[1] i8i8 @calculatedFrom(""x y""),
-        uint8x Pad `line1
-                line2`,
-    },
-    @lengthOf(u)
-    char[4294967296] crc,
-    @tag(007)
-    repeatCount,
-    repeat char[] Header,
-    @rightPad()
-    char[] string_ `a\`,
-}")).
-Eval vm_compute in ("<<<M1781>>>" ++ check (runes_of_ascii "
-options
-{
-    StringPrefixLenType	=
-u8 ;
-    ArrayPrefixLenType =
+	,
 
-    u8
-;
-	FixedStringPadFromLeft
-	=
-false
+""x y"" 
+]
+:
+chars
+	[
+""\n""  , 65535
+	,""a\\""
+]
 
-;
-	FixedStringPadChar = ' ' ; }packet Ack {  char[]
-	tag7  , } packet	Reject
-
-    {	InSym61
-{  repeat
-Ack
-	, zchar[
-	4
-]f1	, 
-},
-}  packet  Logout
-
-{char[ 
-4 ]
-    clOrdID ,  }
-	root
-
-    packet
-Cancel { 
-@leftPad
-(
-
-    ' '
-    )
-    char[10
-	] price	,u8 x
-, u32
-venue @lengthOf(Body )
-
-    ,
+:
+A	,	""\n"" :lengthOf, } , 
 match
 
-    x
-as
-	Body {[
+string_ as  i8i8 {
 
-    92 , 175
+    7	:msg_type
 
-]:	Logout, 26 :
-    Reject  ,
-144
+    , 	 // c
+    ""abc"" 
+:tag  , ""a\""b"":  metadata	,
+
+    255
+	:
+matchKey ,[	""CRC32"",
+""1"" 
+      // " ++ [27880; 37322]%N ++ runes_of_ascii "
+// " ++ [128512]%N ++ runes_of_ascii " emoji
+
+, 007 ,	""packet""  , ""a\\""/// triple
+      ,
+""a\""b"" 
+        // " ++ [128512]%N ++ runes_of_ascii " emoji
+	  ,007
+	,
+4294967296
+] :
+    lengthOf
+    , }
+,
+
+uint16
+pack
+    ,	string  Pad @lengthOf(o )
+`say ""hi""`
+
+, 
+repeat
+    i8	body
+    ,
+@lengthOf(  //x
+      crc 
+)float64 
+body
+
+`// not a comment`
+,
+    repeat  rootA	{
+	int16 
+x_y_z
+
+    `tab	here`
+
+    ,
+
+    falsey @calculatedFrom(  ""{,}""
+)
+, trueish	@lengthOf(  crc) `{ , }`
+	,
+
+    } , match
+    Pad
+	as  Header {	4294967296:Header 
+,  ""\n""
 
     :
-	Ack ,
-} , u16
 
-    count
-    @calculatedFrom(
-""CR\
-C32"" 
-),	} ")).
+msg_type
+
+    , 
+""a	b"" 
+:
+	x_y_z 
+,}
+,
+//	t
+  	Logon  ,
+}
+")).
+Eval vm_compute in ("<<<M1876>>>" ++ check (runes_of_ascii "packet x {
+    //x
+    lengthOf @calculatedFrom(""abc"") `u8 x,`,
+    @rightPad()
+    //x
+    // @lengthOf(
+    float32 Packet @lengthOf(falsey),
+    char[10] falsey,
+    @tag(3)
+    repeat zchar[4294967296] repeatCount,
+    repeatCount `say ""hi""`,
+    int16 u128,
+    char[3] crc @calculatedFrom(""x y""),// trailing space 
+    @leftPad('\x00')
+    match chars as i8i8 {
+        42 : charz,
+    },
+}
+
+options {
+}
+
+MetaData metadata {
+    char[4294967296] i8i8,
+    float rootA,
+    i64 packetx,
+    i8 roots `crlf
+        line`,
+    tag i64_,
+    uint8 Pad `" ++ [233]%N ++ runes_of_ascii "`,
+}
+
+root packet Header {
+    u64 options1 `two words`,
+    @calculatedFrom(""a\\"")
+    // " ++ [128512]%N ++ runes_of_ascii " emoji
+    i32 x_y_z @calculatedFrom(""a\""b"") `tab	here`,
+    match A as len {
+        [""CRC32"", ""it's""] : Z9_,
+        ""a	b"" : o,
+    },
+    match asx as pack {
+        0 : x_y_z,
+    },
+    char[] i64_ `{ , }`,
+}
+
+MetaData stringy {
+    // trailing space 
+    lengthOf o,
+    string u8x,
+    f32 string_ `doc`,
+}")).
+Eval vm_compute in ("<<<M1487>>>" ++ check (runes_of_ascii "options {
+    matchKey = ""x y"";
+    MetaDataX = '0';
+}
+
+packet msg_type {
+    @rightPad(' ')
+    repeat u128 body,
+    match body as pack {
+        [""\" ++ [233]%N ++ runes_of_ascii """, ""1""] : BodyLength,
+        [
+            255, ""a	b"", ""a\\"", ""{,}"", 007,
+            007, 0123456789
+        ] : options1,
+    },
+    @leftPad()
+    @lengthOf(charz)
+    @tag(42)
+    o {
+        i32 msg_type @lengthOf(A) `doc`,
+        zchar[1] charz,// c
+        i8 packetx `{ , }`,
+        msg_type `crlf
+        line`,
+    },
+    @calculatedFrom(""\" ++ [233]%N ++ runes_of_ascii """)
+    Z9_ @calculatedFrom(""" ++ [128512]%N ++ runes_of_ascii """) `tab	here`,
+    repeat char[] Foo,
+    repeat zchar[0123456789] u128,
+}
+
+packet f32a {
+    f32a @lengthOf(matchKey),
+    @rightPad(' ')
+    @lengthOf(chars)
+    _x Foo ``,
+    match body as body {
+        [4294967296, ""packet"", 3, """ ++ [128512]%N ++ runes_of_ascii """, 0123456789] : T,
+        [""a\\""] : T,
+        ""\n"" : u8x,
+    },
+}//x
+
+root packet lengthOf {
+}")).
+Eval vm_compute in ("<<<M1873>>>" ++ check (runes_of_ascii "  packet
+	falsey
+	{	// `tick` ""quote"" 'q'
+repeat
+charz 
+    /// triple
+float	// a // b
+  `tab	here`
+,
+
+char[] stringy
+, 
+Logon
+
+    f32a ,char[]
+
+string_ /// triple
+	  ,int16  _x
+
+    `` 
+,	match /// triple
+    crc
+	as
+    stringy {
+""abc"" : Pad
+	[""\n""
+
+, 10
+
+    ,4294967296	, 0123456789
+
+,
+""abc""	,
+	""" ++ [28040; 24687]%N ++ runes_of_ascii """
+
+] :i8i8,10:  
+  //x
+  Header, 10: 	 // c
+  	calculatedFrom
+    ,
+	0123456789 : charz	10 
+:repeatCount
+    }
+    , leftPad
+
+    @lengthOf( 
+u8x
+)  ,
+	@lengthOf( a1
+    )
+    repeat
+
+    x
+    body , }	MetaData string_
+
+    {
+float64
+    f32a	,  zchar[
+    255]  T,u32	trueish ,BodyLength
+roots `two words`	, } 
+      // " ++ [128512]%N ++ runes_of_ascii " emoji
+    	//	t
+    packet
+
+stringy  { zchar[255 ]
+    Foo
+, }MetaData
+	leftPad {	} 	 //
+
+options {
+    x	//x
+=
+true ;
+zchar= """"
+
+    } //
+")).
+Eval vm_compute in ("<<<M219>>>" ++ check (runes_of_ascii "
+packet
+falsey{ // `tick` ""quote"" 'q'
+repeat charz
+    /// triple
+    float // a // b
+`tab	here`
+    ,
+char[]stringy  , Logon
+    f32a,
+    char[] string_/// triple
+,
+int16
+_x
+`` ,
+    match/// triple
+crc as stringy { ""abc"" :Pad
+    [ ""\n"" , 10, 4294967296, 0123456789 , ""abc"" ,	""" ++ [28040; 24687]%N ++ runes_of_ascii """
+    ] :
+i8i8 , 10 :
+    //x
+    Header , 10:// c
+calculatedFrom
+    , 0123456789: charz
+10
+    :
+    repeatCount} ,
+    leftPad @lengthOf(
+u8x )  , @lengthOf(a1) repeat x body ,
+} MetaData
+string_
+{ float64  f32a	, zchar[
+255] T, u32 trueish, BodyLength roots
+`two words` , }
+// " ++ [128512]%N ++ runes_of_ascii " emoji
+//	t
+packet stringy{ zchar[
+    255
+    ]Foo ,
+}
+MetaData
+leftPad {
+    } //
+options { x //x
+=
+true
+    ;
+zchar = """" } //")).
+Eval vm_compute in ("<<<M78>>>" ++ check (runes_of_ascii "options {
+Header	=u32; } options {
+i8i8	=
+    f64 ; body
+    =  zchar[
+// " ++ [128512]%N ++ runes_of_ascii " emoji
+/// triple
+00//
+] ; }
+    //
+    MetaData BodyLength  { // trailing space 
+}// " ++ [27880; 37322]%N ++ runes_of_ascii "
+options
+{ Logon= u64 As =
+    true i64_
+= '\x00' ;
+} root packet asx {
+@tag(
+// `tick` ""quote"" 'q'
+//	t
+4294967296
+    )
+    roots @lengthOf( A ) ,repeat uint8 u128
+    , int32 i64_  ,
+    u8 u `` ,
+@lengthOf(
+// c
+// c
+len ) uint64
+    //x
+    matchKey ,	match rootA
+    as stringy {
+1 : string_, 7 : charz , 255 : u128, [ // trailing space 
+0
+,0123456789 ,1,007  ]: len
+    , 10
+    :trueish } ,
+@rightPad	()
+    char[ 7] int //
+@lengthOf(
+x ) `two words`
+, }")).
+Eval vm_compute in ("<<<M348>>>" ++ check (runes_of_ascii "root // c
+packet asx { @rightPad
+    (
+' ' ) @lengthOf(  int)@tag( 0 ) u64 uint8x @calculatedFrom( ""packet"")
+    ,  uint32 i64_ ,
+    // c
+    repeat options1 o,match f32a as /// triple
+falsey// " ++ [27880; 37322]%N ++ runes_of_ascii "
+{ 42 : stringy 10 :
+As, """" :
+    Packet ,
+} ,@calculatedFrom(""it's""
+) // " ++ [128512]%N ++ runes_of_ascii " emoji
+f64	a1 ,
+    @lengthOf(
+    tag )
+    match roots as MetaDataX
+{
+""" ++ [128512]%N ++ runes_of_ascii """:  f32a
+    , ""\n"" :
+    As [ 255 ]: A ,  }, a1 @calculatedFrom(	""abc"" )
+`` , @rightPad(
+)
+    @rightPad (
+    '\x00'
+)@calculatedFrom(
+""CRC32"" )body As , }  root packet packetx
+{
+//x
+//
+repeat lengthOf Logon `" ++ [28040; 24687; 31867; 22411]%N ++ runes_of_ascii "` , //	t
+}")).
 Eval vm_compute in ("<<<M45>>>" ++ check (runes_of_ascii "
 packet
 tag{ string matchKey `line1
@@ -481,265 +565,228 @@ char[]
 stringy
 , }
 ")).
-Eval vm_compute in ("<<<M138>>>" ++ check (runes_of_ascii "packet Header{ char[	10
-] A`it's` , @calculatedFrom(	""" ++ [28040; 24687]%N ++ runes_of_ascii """)calculatedFrom // a // b
-@lengthOf( zchar ) `tab	here` ,  u32	BodyLength,
-@lengthOf(
-    stringy  ) //
-@rightPad (
-    ' ') @tag(
-0123456789 )
-body{ match i8i8 as
-Foo
-{ [ 7 ,	""CRC32"" ] : options1 ,[""a\""b"" , """ ++ [128512]%N ++ runes_of_ascii """ ,
-    ""it's""
-    , ""a	b"" ,
-""// no comment"" , ""it's"" , 7,""abc""  ] :
-As  ,
-1 :
-_x
+Eval vm_compute in ("<<<M133>>>" ++ check (runes_of_ascii "MetaData  falsey
+{ } root packet // `tick` ""quote"" 'q'
+o {@tag(3// " ++ [128512]%N ++ runes_of_ascii " emoji
+) @calculatedFrom( """") @lengthOf(
+    pack)char[ 65535
+    ]falsey
+    @lengthOf(falsey ) , }  root packet roots
+    {@lengthOf(
+chars )match Logon as chars{ ""`tick`"" :charz
+    // packet A { u8 x, }
+    ""a\\"" :Z9_ 007 : trueish ""CRC32"" :	msg_type , [
+3
+    ,3 // `tick` ""quote"" 'q'
+,
+00 ,4294967296 ,
+0
+,7 , //
+""x y"",""\" ++ [233]%N ++ runes_of_ascii """
+    //	t
+    ] : metadata ,""a	b""
+//x
+// " ++ [27880; 37322]%N ++ runes_of_ascii "
+:	crc } , }
+")).
+Eval vm_compute in ("<<<M1561>>>" ++ check (runes_of_ascii "packet Frame {
+    u8 HK,
+    u8 BK,
+    u8 TK,
+    match HK as Hdr {
+        1 : HdrA,
+        2 : HdrB,
+    },
+    match BK as Body {
+        1 : BodyA,
+        2 : BodyB,
+    },
+    match TK as Trl {
+        1 : TrlA,
+    },
+}
+
+packet HdrA {
+    u8 a,
+}
+
+packet HdrB {
+    u16 b,
+}
+
+packet BodyA {
+    u32 c,
+}
+
+packet BodyB {
+    u64 d,
+}
+
+packet TrlA {
+    u8 e,
+}
+
+root packet Msg {
+    Frame,
+    u8 x,
+}")).
+Eval vm_compute in ("<<<M114>>>" ++ check (runes_of_ascii "packet
+a1 {@calculatedFrom(""`tick`"" ) uint32 charz	`crlf
+line` ,
+// c
+//x
+a1 `tab	here`, }
+    options
+    {
+// " ++ [27880; 37322]%N ++ runes_of_ascii "
 // " ++ [128512]%N ++ runes_of_ascii " emoji
-//
-} , repeat  uint8x{crc
-@calculatedFrom( ""a\\""
-), } ,
-    repeat  i8 tag ,// " ++ [128512]%N ++ runes_of_ascii " emoji
-}
-, }
-
+stringy =
+// c
+// a // b
+255 ;
+    metadata =	4294967296 pack
+    = /// triple
+string	; crc= string
+    ; }  root  packet
+crc	{ @tag(  42  )
+@calculatedFrom( ""abc""  )
+@rightPad ( '0'
+) u128 u8x
+/// triple
+//x
+,@lengthOf(len) uint16 int, }
 ")).
-Eval vm_compute in ("<<<M1808>>>" ++ check (runes_of_ascii "options { LittleEndian
-	=false
-;
-StringPrefixLenType
-=	u8
+Eval vm_compute in ("<<<M1568>>>" ++ check (runes_of_ascii "
+packet tag
+
+    {
+
+}
+packet	falsey  {string
+    charz
+	@lengthOf(
+
+    zchar)
+
+,
+string // trailing space 
+    u@calculatedFrom(""" ++ [233]%N ++ runes_of_ascii "t" ++ [233]%N ++ runes_of_ascii """ )
+
+`// not a comment` 
+,@leftPad
+    (  '0') 
+char[]
+leftPad 
+@calculatedFrom( ""a	b""
+    )
+`// not a comment`, @calculatedFrom(	""`tick`""
+)  @lengthOf( roots )repeat
+MetaDataX
+    ,}
+")).
+Eval vm_compute in ("<<<M32>>>" ++ check (runes_of_ascii "packet int { T/// triple
+{ repeat _x ,	} ,
+    i64_ _x
+    `
+`, @calculatedFrom( ""x y"" )u32 A
+,  match a1 as
+    i8i8 { [ ""1""
+,
+4294967296
+]:
+    a1 ,"""":	a1
+    , 007: a1 , [ ""CRC32"" ] :Header} , int64 As, int8 a1 , //
+char[] float
+`tab	here`/// triple
+,
+repeat zchar[ 1	]u8x,
+} /// triple")).
+Eval vm_compute in ("<<<M1618>>>" ++ check (runes_of_ascii "
+options
+{ pack 	 // `tick` ""quote"" 'q'
+		=	0123456789
+}packet
+metadata{
+@leftPad(' '
+    ) stringy  @lengthOf(	_x
+    ) ,
+
+repeat u8
+int 
+`{ , }`
+,
+	@leftPad	//	t
+      (
+'0'	)repeat	char msg_type `it's`  ,
+	}
+	MetaData
+x_y_z {// trailing space 
+	}
+")).
+Eval vm_compute in ("<<<M1544>>>" ++ check (runes_of_ascii "packet
+rootA
+    { } 	 // trailing space 
+	  packet
+f32a//	t
+		{ match zchar
+    as
+
+    zchar { 65535:
+
+f32a,	7 :
+charz  // trailing space 
+
+,  ""{,}"" 
+  //	t
+	//x
+  :  Header,42:
+
+a1 // packet A { u8 x, }
+
+,
+    } ,} ")).
+Eval vm_compute in ("<<<M1549>>>" ++ check (runes_of_ascii "
+MetaData	// a // b
+
+	o
+{  string  Foo 
+,
+}
+MetaData
+    msg_type
+
+    { Header len
+    `" ++ [28040; 24687; 31867; 22411]%N ++ runes_of_ascii "`
+
+, }	options
+
+{	tag
+	='0'
 ;
 
-ArrayPrefixLenType
+    o
 =
-    u64
 
-    ;FixedStringPadFromLeft=
+    ""CRC32""
 
-    false
-
-    ; FixedStringPadChar =
-	' '
-; 
-} 
-packet	Reject	{
-
-repeat char[	4
-
-]
-
-seqNo 
-,
-string
-Px
-,
-}
-	root packet Trade { 
-@rightPad
-(
-'0' )
-
-char[  2] 
-msgKind
-,
-repeat	f64 price 
-,
-
-    InAcct79
-{repeat  Reject ,	zchar[ 7 ]
-OrderId
-    ,
-
-}
-    , Reject
-,
-
-}
-")).
-Eval vm_compute in ("<<<M1800>>>" ++ check (runes_of_ascii "root
-
-    packet
-
-o
-{
-
-    }
-	MetaData	uint8x{
-    int64 rootA ,} MetaData As	{ 
-i32  // packet A { u8 x, }
-chars
-
-    ,
-}packet Z9_// trailing space 
-
-  {
-@leftPad
-
-(
-) 
-char[] x_y_z
-,
-    } packet tag {
-@leftPad 
-(
-    // " ++ [128512]%N ++ runes_of_ascii " emoji
-	// " ++ [27880; 37322]%N ++ runes_of_ascii "
-      ' '
-
-    ) zchar[
-    0  // `tick` ""quote"" 'q'
-		] 
-rootA 
-@calculatedFrom(
-	""a\\""
-)`tab	here`
-
-    ,}")).
-Eval vm_compute in ("<<<M109>>>" ++ check (runes_of_ascii "MetaData Header{ } packet crc {	match zchar as leftPad // `tick` ""quote"" 'q'
-{ 7 : As 0 : Packet , [
-00 // " ++ [128512]%N ++ runes_of_ascii " emoji
-]
-: Pad ,
-//x
-//x
-""// no comment""
-    :
-    calculatedFrom
-,	3
-    :
-string_ , } ,falsey  packetx `crlf
-line` , // " ++ [27880; 37322]%N ++ runes_of_ascii "
-@tag( 42 )repeat
-u64 packetx,
-@calculatedFrom(  ""1"" ) repeat u16 calculatedFrom, }
-")).
-Eval vm_compute in ("<<<M1526>>>" ++ check (runes_of_ascii "  packet Z9_ {@calculatedFrom(
-""packet""
-
-)
-	char  //
-  BodyLength ,
-	match
-chars
-
-    as falsey{
-[
-65535
-
-    ,
-        // c
-	""" ++ [128512]%N ++ runes_of_ascii """, 
-""" ++ [28040; 24687]%N ++ runes_of_ascii """,""`tick`"", 10 ,
-	""a\\""
-
-,  ""a\""b""	// @lengthOf(
-
-] : 
-repeatCount
-,
-""x y""
-	:
-chars
-,  // " ++ [128512]%N ++ runes_of_ascii " emoji
-65535
-	: 	 //x
-  calculatedFrom  ,
-
-    }  , 
-}
-
-")).
-Eval vm_compute in ("<<<M1905>>>" ++ check (runes_of_ascii "  options
-{
-
-    Z9_
-=  // trailing space 
-""packet""
-;  float 
-= 
-false  ;
-	A
+;
+Logon
 	=
-
-    ' ' 
-}
-        // c
-    MetaData pack
-    {
-zchar[  3
-    ]
-leftPad  , 
-zchar
-
-    falsey`it's` ,
-    char[]
-
-repeatCount	, char[  65535	// " ++ [128512]%N ++ runes_of_ascii " emoji
-	]	Z9_,	}
-	//	t
+""`tick`""
+;  // a // b
+    }
 ")).
-Eval vm_compute in ("<<<M1247>>>" ++ check (runes_of_ascii "options { LittleEndian // c2a
-  // c2b
-= // c3
-true
-    // c4
-; } root
-    // c7
-packet P // c9a
-  // c9b
-{ repeat char // c12a
-  // c12b
-cs // c13a
-  // c13b
-, // c14a
-  // c14b
-u8
-    // c15
-x
-    // c16
-, // c17
-}
-    // c18
-")).
-Eval vm_compute in ("<<<M1877>>>" ++ check (runes_of_ascii "packet
-repeatCount
-
-{trueish
-, } packet uint8x
-{  /// triple
-	match	u8x
-    as  calculatedFrom	{
-
-[ 4294967296  ]
-    :	len,
-
-    [
-	""" ++ [128512]%N ++ runes_of_ascii """
-
-, """ ++ [233]%N ++ runes_of_ascii "t" ++ [233]%N ++ runes_of_ascii """ 
-,
-	255,  //
-      1  ] :falsey
-	,} 
-, }
-")).
-Eval vm_compute in ("<<<M44>>>" ++ check (runes_of_ascii "
-packet repeatCount
-    {
-trueish , } packet uint8x
-{/// triple
-match u8x as calculatedFrom
-    { [ 4294967296 ]: len ,
-[ """ ++ [128512]%N ++ runes_of_ascii """ ,	""" ++ [233]%N ++ runes_of_ascii "t" ++ [233]%N ++ runes_of_ascii """ , 255 , //
-1
-] : falsey , } , }
-")).
-Eval vm_compute in ("<<<M491>>>" ++ check (runes_of_ascii "packet uint8x
+Eval vm_compute in ("<<<M1410>>>" ++ check (runes_of_ascii "packet A {
+    match k as n {
+        [
+            ""a"", ""bb"", ""c c"", ""d"", ""e"",
+            ""f"", ""g"", ""h"", ""i"", ""j"",
+            ""k""
+        ] : B,
+        2 : C,
+    },
+}")).
+Eval vm_compute in ("<<<M481>>>" ++ check (runes_of_ascii "packet uint8x
 { match pack
     as msg_type	{
     0123456789 :	float
@@ -747,29 +794,22 @@ Eval vm_compute in ("<<<M491>>>" ++ check (runes_of_ascii "packet uint8x
 ,
 } packet //	t
 a1
-    { } options {packetx packetx
+    { } options options {packetx
     = '\x00'	; u128= ""a	b""  ; }
 ")).
-Eval vm_compute in ("<<<M1557>>>" ++ check (runes_of_ascii "MetaData leftPad
+Eval vm_compute in ("<<<M1806>>>" ++ check (runes_of_ascii "MetaData x_y_z {
+    int32 o,
+    zchar[65535] Packet,
+    i64_ o,
+    i64 o `
+    `,
+}
 
-    {
-	chars
-
-    MetaDataX 
-,}packet repeatCount{char[255
-
-] uint8x`" ++ [233]%N ++ runes_of_ascii "`
-	,
-    }
-
-    MetaData pack
-{	As
-
-    Foo
-, 
-}	// c
- 
-")).
+options {
+    x = u8;
+    // " ++ [27880; 37322]%N ++ runes_of_ascii "
+    // a // b
+}// trailing space ")).
 Eval vm_compute in ("<<<M546>>>" ++ check (runes_of_ascii "packet uint8x
 { match pack
     as msg_type	{
@@ -781,18 +821,18 @@ a1
     { } options {packetx
     = '\x00'	; @ u128= ""a	b""  ; }
 ")).
-Eval vm_compute in ("<<<M447>>>" ++ check (runes_of_ascii "packet uint8x
+Eval vm_compute in ("<<<M448>>>" ++ check (runes_of_ascii "packet uint8x
 { match pack
     as msg_type	{
     0123456789 :	float
+=
 ,
-}
 } packet //	t
 a1
     { } options {packetx
     = '\x00'	; u128= ""a	b""  ; }
 ")).
-Eval vm_compute in ("<<<M475>>>" ++ check (runes_of_ascii "packet uint8x
+Eval vm_compute in ("<<<M483>>>" ++ check (runes_of_ascii "packet uint8x
 { match pack
     as msg_type	{
     0123456789 :	float
@@ -800,192 +840,254 @@ Eval vm_compute in ("<<<M475>>>" ++ check (runes_of_ascii "packet uint8x
 ,
 } packet //	t
 a1
-    {  options {packetx
+    { } '\x00' {packetx
     = '\x00'	; u128= ""a	b""  ; }
 ")).
-Eval vm_compute in ("<<<M668>>>" ++ check (runes_of_ascii "// @len'1'gthOf(
+Eval vm_compute in ("<<<M703>>>" ++ check (runes_of_ascii "// @lengthOf(
+packet i8i8 { u128 o , }
+options '1'{ MetaDataX = true;
+    BodyLength =""packet"" x_y_z= 007
+crc //x
+= ""abc"" ;
+    msg_type =
+i16 }")).
+Eval vm_compute in ("<<<M1607>>>" ++ check (runes_of_ascii "packet A {
+    match k as n {
+        [
+            1, ""bb"", 007, ""d"", 5,
+            ""f"", 7, ""h"", 9, ""j""
+        ] : B,
+        2 : C,
+    },
+}")).
+Eval vm_compute in ("<<<M688>>>" ++ check (runes_of_ascii "// @lengthOf(
 packet i8i8 { u128 o , }
 options { MetaDataX = true;
     BodyLength =""packet"" x_y_z= 007
 crc //x
 = ""abc"" ;
     msg_type =
-i16 }")).
-Eval vm_compute in ("<<<M1487>>>" ++ check (runes_of_ascii "// top
-packet Inner {
-    // c2
-    u8 a,
-}// c6
-
-root packet P {
-    // c10a
-    // c10b
-    repeat Inner items,// c14
-    u8 x,// c17a
-}// c18")).
-Eval vm_compute in ("<<<M709>>>" ++ check (runes_of_ascii "// @lengthOf(
-packet i8i8 { u128 o , }
-options { MetaDataX = true;
-    BodyLength =""packet"" x_y_z= 007
-crc //x
-= ""abc"" 
-    msg_type =
-i16 }")).
-Eval vm_compute in ("<<<M1751>>>" ++ check (runes_of_ascii "packet A {
+i16")).
+Eval vm_compute in ("<<<M1763>>>" ++ check (runes_of_ascii "packet A {
     match k as n {
         [
-            007, 66, ""a"", ""bb"", ""d"",
-            ""e"", ""g""
+            1, 22, 007, 4, 5,
+            66, 7, 8, 9, 10
         ] : B,
         2 : C,
     },
 }")).
-Eval vm_compute in ("<<<M259>>>" ++ check (runes_of_ascii "  MetaData repeatCount // c
-{char[
-42 // " ++ [27880; 37322]%N ++ runes_of_ascii "
-]
-    // " ++ [128512]%N ++ runes_of_ascii " emoji
-    MetaDataX ,
-    // @lengthOf(
-    zchar[
-// " ++ [27880; 37322]%N ++ runes_of_ascii "
-//x
-0] asx , }
-")).
-Eval vm_compute in ("<<<M1190>>>" ++ check (runes_of_ascii "MetaData leftPad { chars MetaDataX , } packet repeatCount { char[ 255 ] uint8x `" ++ [233]%N ++ runes_of_ascii "` , } MetaData pack { As Foo , }
-// c
-")).
-Eval vm_compute in ("<<<M1170>>>" ++ check (runes_of_ascii "MetaData leftPad { chars MetaDataX , } packet repeatCount { char[ 255 ] uint8x
-// c
-`" ++ [233]%N ++ runes_of_ascii "` , } MetaData pack { As Foo , }")).
-Eval vm_compute in ("<<<M302>>>" ++ check (runes_of_ascii "packet string_{@lengthOf(	float ) // @lengthOf(
-BodyLength { match uint8x as i64_ { 0123456789
-: As
-    , } , } , }")).
-Eval vm_compute in ("<<<M910>>>" ++ check (runes_of_ascii "packet A {
-  match k as n {
-    [""a"", 22, ""c c"", 4, ""e"", 66, ""g"", 8, ""i"", 10, ""k"", 12] : B,
-    2 : C
-  },
-}")).
-Eval vm_compute in ("<<<M898>>>" ++ check (runes_of_ascii "packet A {
-  match k as n {
-    [""a"", 22, ""c c"", 4, ""e"", 66, ""g"", 8, ""i"", 10, ""k""] : B
-    2 : C
-  },
-}")).
-Eval vm_compute in ("<<<M1558>>>" ++ check (runes_of_ascii "MetaData chars {
-    x_y_z x `line1
-    line2`,
-    _x A `// not a comment`,
-}// `tick` ""quote"" 'q'")).
-Eval vm_compute in ("<<<M573>>>" ++ check (runes_of_ascii "
-packet
-    asx {match u128 u128 as lengthOf
-{
-//	t
-// `tick` ""quote"" 'q'
-255 : x ,
-    } ,	}")).
-Eval vm_compute in ("<<<M474>>>" ++ check (runes_of_ascii "packet uint8x
-{ match pack
-    as msg_type	{
-    0123456789 :	float
-}
-,
-} packet //	t
-a1")).
-Eval vm_compute in ("<<<M281>>>" ++ check (runes_of_ascii "
-packet
-    o	{  }
-packet
-Pad {
-BodyLength // trailing space 
-, } packet metadata //x
-{}")).
-Eval vm_compute in ("<<<M857>>>" ++ check (runes_of_ascii "packet A {
-  match k as n {
-    [1, ""bb"", 007, ""d"", 5, ""f"", 7, ""h""] : B
-    2 : C
-  },
-}")).
-Eval vm_compute in ("<<<M1492>>>" ++ check (runes_of_ascii "options {
-    LittleEndian = true;
+Eval vm_compute in ("<<<M1425>>>" ++ check (runes_of_ascii "
+
+  packet
+A
+{match k as
+n
+
+    {
+
+    [
+1
+	,
+22,	""c c""  , 
+4
+	,	5
+    ,
+    ""f"" ,
+7 , 
+8
+    ]: B
+
+    , 
+2  :
+	C }
+
+, }")).
+Eval vm_compute in ("<<<M1698>>>" ++ check (runes_of_ascii "packet B {
+    u8 a,
 }
 
 root packet P {
-    repeat char cs,
-    u8 x,
+    u8 K,
+    match K as Body {
+        1 : B,
+    },
+    u16 L @lengthOf(Body),
 }")).
-Eval vm_compute in ("<<<M816>>>" ++ check (runes_of_ascii "packet A {
+Eval vm_compute in ("<<<M1158>>>" ++ check (runes_of_ascii "MetaData leftPad { chars MetaDataX , } packet
+// c
+repeatCount { char[ 255 ] uint8x `" ++ [233]%N ++ runes_of_ascii "` , } MetaData pack { As Foo , }")).
+Eval vm_compute in ("<<<M1675>>>" ++ check (runes_of_ascii "
+MetaData
+    zchar 
+{ roots A ,  char[]
+falsey  `line1
+line2`
+	,
+// " ++ [128512]%N ++ runes_of_ascii " emoji
+  // @lengthOf(
+	int 
+crc  ,
+}//	t
+ 
+")).
+Eval vm_compute in ("<<<M915>>>" ++ check (runes_of_ascii "packet A {
   match k as n {
-    [""a"", ""bb"", ""c c"", ""d"", ""e""] : B
+    [""a"", ""bb"", 007, ""d"", ""e"", 66, ""g"", ""h"", 9, ""j"", ""k"", 12] : B
     2 : C
   },
 }")).
-Eval vm_compute in ("<<<M611>>>" ++ check (runes_of_ascii "
+Eval vm_compute in ("<<<M1278>>>" ++ check (runes_of_ascii "  options{ 
+LittleEndian =	true
+	; } root	packet
+	P {	u16  a ,u32 
+Sum
+@calculatedFrom(
+""CRC32""  )	, }
+
+")).
+Eval vm_compute in ("<<<M641>>>" ++ check (runes_of_ascii "
 packet
     asx {match u128 as lengthOf
 {
 //	t
 // `tick` ""quote"" 'q'
-255 : x")).
-Eval vm_compute in ("<<<M459>>>" ++ check (runes_of_ascii "packet uint8x
-{ match pack
-    as msg_type	{
-    0123456789 :	float
+255 : x ,
+    } @lengthOf ,	}")).
+Eval vm_compute in ("<<<M1519>>>" ++ check (runes_of_ascii "packet uint8x {
+    match pack as msg_type {
+        0123456789 : float,
+    },
 }
-,")).
-Eval vm_compute in ("<<<M877>>>" ++ check (runes_of_ascii "packet A { Inner { match k as n { [1,22,007,4,5,66,7,8,9] : B, }, }, }")).
-Eval vm_compute in ("<<<M780>>>" ++ check (runes_of_ascii "packet A {
+
+packet a1 {
+}")).
+Eval vm_compute in ("<<<M642>>>" ++ check (runes_of_ascii "
+packet
+    asx {match u128 as lengthOf
+{'1'
+//	t
+// `tick` ""quote"" 'q'
+255 : x ,
+    } ,	}")).
+Eval vm_compute in ("<<<M638>>>" ++ check (runes_of_ascii "
+packet
+    asx {match u128 as leng""thOf
+{
+//	t
+// `tick` ""quote"" 'q'
+255 : x ,
+    } ,	}")).
+Eval vm_compute in ("<<<M597>>>" ++ check (runes_of_ascii "
+packet
+    asx {match u128 as lengthOf
+{
+//	t
+// `tick` ""quote"" 'q'
+255  x ,
+    } ,	}")).
+Eval vm_compute in ("<<<M860>>>" ++ check (runes_of_ascii "packet A {
   match k as n {
-    [""a"", ""bb""] : B,
+    [1, 22, ""c c"", 4, 5, ""f"", 7, 8] : B,
     2 : C
   },
 }")).
-Eval vm_compute in ("<<<M778>>>" ++ check (runes_of_ascii "packet A {
-  match k as n {
-    [1, 22] : B,
-    2 : C
-  },
-}")).
-Eval vm_compute in ("<<<M767>>>" ++ check (runes_of_ascii "@rightPad char[] string u16 @tag( @lengthOf( as packet ,")).
-Eval vm_compute in ("<<<M1204>>>" ++ check (runes_of_ascii "packet body {
-// c
-i32 f32a `{ , }` , } options { }")).
-Eval vm_compute in ("<<<M1610>>>" ++ check (runes_of_ascii "MetaData _x {
-    i64 u128,
-    Packet Header,
-}")).
-Eval vm_compute in ("<<<M1223>>>" ++ check (runes_of_ascii "// top
-packet // c0
-x { // c2
-}
-    // c3
+Eval vm_compute in ("<<<M582>>>" ++ check (runes_of_ascii "
+packet
+    asx {match u128 as 
+{
+//	t
+// `tick` ""quote"" 'q'
+255 : x ,
+    } ,	}")).
+Eval vm_compute in ("<<<M1916>>>" ++ check (runes_of_ascii "
+MetaData
+x
+{x
+    Packet ,
+i32	lengthOf
+	, 	 // `tick` ""quote"" 'q'
+	  }
 ")).
-Eval vm_compute in ("<<<M1473>>>" ++ check (runes_of_ascii "packet A {
-    u8 x `a
-        b`,
-}")).
-Eval vm_compute in ("<<<M179>>>" ++ check (runes_of_ascii "// `tick` ""quote"" 'q'
-options {}")).
-Eval vm_compute in ("<<<M1013>>>" ++ check (runes_of_ascii "packet A {
- u8 x `d" ++ [8232]%N ++ runes_of_ascii "`, // c" ++ [8232]%N ++ runes_of_ascii "
-}")).
-Eval vm_compute in ("<<<M1707>>>" ++ check (runes_of_ascii "
+Eval vm_compute in ("<<<M601>>>" ++ check (runes_of_ascii "
+packet
+    asx {match u128 as lengthOf
+{
+//	t
+// `tick` ""quote"" 'q'
+255")).
+Eval vm_compute in ("<<<M108>>>" ++ check (runes_of_ascii "packet int {}
+options {leftPad ='0' ;metadata= char[] Foo=
+'0' ; }
+")).
+Eval vm_compute in ("<<<M1431>>>" ++ check (runes_of_ascii "
 
   packet
-	A  {	} 
-	// c" ++ [6158]%N)).
-Eval vm_compute in ("<<<M1111>>>" ++ check (runes_of_ascii "MetaData tag { } // c
+
+body
+{ i32
+f32a `{ , }`
+    ,
+}  options
+{}	// c
 ")).
-Eval vm_compute in ("<<<M1136>>>" ++ check (runes_of_ascii "MetaData u { } // c
-")).
-Eval vm_compute in ("<<<M992>>>" ++ check (runes_of_ascii "// c" ++ [133]%N ++ runes_of_ascii "
-packet A {
+Eval vm_compute in ("<<<M948>>>" ++ check (runes_of_ascii "packet A {
+    B b `x
+`,
+    B `x
+`,
+    repeat B bs `x
+`,
 }")).
-Eval vm_compute in ("<<<M1742>>>" ++ check (runes_of_ascii "// trailing space ")).
-Eval vm_compute in ("<<<M11>>>" ++ check (runes_of_ascii "packet zchar { }")).
-Eval vm_compute in ("<<<M241>>>" ++ check (runes_of_ascii "/// triple
+Eval vm_compute in ("<<<M27>>>" ++ check (runes_of_ascii "options{Logon = """ ++ [28040; 24687]%N ++ runes_of_ascii """
+    ; BodyLength =
+    false
+; }
 ")).
-Eval vm_compute in ("<<<M1045>>>" ++ check (runes_of_ascii "// c" ++ [8203]%N)).
+Eval vm_compute in ("<<<M1203>>>" ++ check (runes_of_ascii "packet body { // c
+i32 f32a `{ , }` , } options { }")).
+Eval vm_compute in ("<<<M1645>>>" ++ check (runes_of_ascii "root packet A {
+    u8 x `a
+        b
+      c`,
+}")).
+Eval vm_compute in ("<<<M1535>>>" ++ check (runes_of_ascii "options {
+    trueish = '0';
+    a1 = u64;
+}")).
+Eval vm_compute in ("<<<M1493>>>" ++ check (runes_of_ascii "  options 
+{
+
+a= 1	;  // a
+	b=2// b
+}")).
+Eval vm_compute in ("<<<M424>>>" ++ check (runes_of_ascii "packet uint8x
+{ match pack
+    as")).
+Eval vm_compute in ("<<<M1586>>>" ++ check (runes_of_ascii "options {
+    options1 = ' ';
+}")).
+Eval vm_compute in ("<<<M1077>>>" ++ check (runes_of_ascii "MetaData M {
+}// c
+options {}")).
+Eval vm_compute in ("<<<M1084>>>" ++ check (runes_of_ascii "packet A { // a
+ u8 x, }")).
+Eval vm_compute in ("<<<M1108>>>" ++ check (runes_of_ascii "MetaData tag
+// c
+{ }")).
+Eval vm_compute in ("<<<M1134>>>" ++ check (runes_of_ascii "MetaData u { // c
+}")).
+Eval vm_compute in ("<<<M1031>>>" ++ check (runes_of_ascii "packet A {
+}
+// c" ++ [11]%N)).
+Eval vm_compute in ("<<<M1019>>>" ++ check (runes_of_ascii "packet A {
+}// c" ++ [8239]%N)).
+Eval vm_compute in ("<<<M1071>>>" ++ check (runes_of_ascii "packet A {
+}
+
+
+")).
+Eval vm_compute in ("<<<M741>>>" ++ check ([65533; 65533]%N ++ runes_of_ascii "1" ++ [65533]%N ++ runes_of_ascii "dcV")).
+Eval vm_compute in ("<<<M111>>>" ++ check (runes_of_ascii "
+
+")).
